@@ -1,5 +1,6 @@
 import LinfaSpec.Proofs.Incremental
 import LinfaSpec.Proofs.IncrementalState
+import LinfaSpec.Proofs.IncrementalFull
 
 /-!
 # C15 — incremental fitting replays to batch fitting / its recurrence
@@ -110,18 +111,107 @@ example : (lookup 7 (gnbRun (0 : Rat) 2 [[([1, 2], 7), ([0, 0], 3)], [([3, 6], 7
 example : (lookup 7 (gnbRun (0 : Rat) 2 [[([1, 2], 7), ([0, 0], 3), ([3, 6], 7)]])).map gProj =
     some (2, [2, 4], [1, 4]) := by decide +kernel
 
-/- Full claim: prior of class c after a history = (rows of c) / (all rows).
-   Proved: the count is the number of rows of c (`gnb_replay_zero_smoothing`, first component) and
-   the prior is that count divided by the sum of the stored counts (any smoothing, any state).
-   Missing: "sum of the stored counts = number of rows fed", which needs uniqueness of the keys of
-   the association list; the oracle clause `counts_priors` checks it exactly on every case. -/
-theorem gnb_counts_priors_partial (vs : α) (p : Nat) (st : GState α) (b : Batch α) (c : Nat)
+/-- the prior written by one `fit_with` call is the class count over the sum of the stored counts
+(any state, any smoothing) -/
+theorem gnb_prior_of_stored_counts (vs : α) (p : Nat) (st : GState α) (b : Batch α) (c : Nat)
     (i : GInfo α) (h : lookup c (gnbStep vs p st b) = some i) :
     i.prior = (i.count : α) /
       (((gnbStep vs p st b).map fun ci => ci.2.count).foldl (fun (a b : Nat) => a + b) 0 : Nat) :=
   gnbStep_prior vs p st b c i h
 
-example : (lookup 7 (gnbRun (0 : Rat) 1 [[([1], 7), ([0], 3)], [([3], 7)]])).map (·.prior) = some (2 / 3) := by
+/-- **the `HashMap` invariant**: after any history the association list has no duplicate key, so
+`lookup` sees every stored entry (any smoothing) -/
+theorem gnb_keys_unique (vs : α) (p : Nat) (hist : List (Batch α)) :
+    (keys (gnbRun vs p hist)).Nodup :=
+  gnbRun_keys_nodup vs p hist
+
+/-- **the stored counts add up to the number of rows fed** (any history, any smoothing) -/
+theorem gnb_counts_sum (vs : α) (p : Nat) (hist : List (Batch α)) :
+    ((gnbRun vs p hist).map fun ci => ci.2.count).foldl (fun (a b : Nat) => a + b) 0 =
+      hist.flatten.length := by
+  rw [← gnbTotal_eq_foldl]; exact gnbRun_total vs p hist
+
+/-- batches `[0,2]` then `[0,4]` of one class, one feature (used by the examples and the counter-example) -/
+def smoothingWitness' : List (Batch Rat) := [[([0], 0), ([2], 0)], [([0], 0), ([4], 0)]]
+
+/-- **counts and priors are the class frequencies of the concatenated data**, for every history
+(any number of batches, class-incomplete batches, late classes) and every `var_smoothing`: a stored
+class holds the number of its rows, and its prior is that number over the number of all rows fed. -/
+theorem gnb_counts_priors (vs : α) (p : Nat) (hist : List (Batch α)) (c : Nat) (i : GInfo α)
+    (h : lookup c (gnbRun vs p hist) = some i) :
+    i.count = (rowsOf c hist.flatten).length ∧
+    i.prior = ((rowsOf c hist.flatten).length : α) / (hist.flatten.length : α) := by
+  have hs := gnbRun_stats_sm vs p hist c
+  rw [h] at hs
+  have hcount : i.count = (rowsOf c hist.flatten).length := by
+    simp only [gnbStatsSm] at hs
+    by_cases hd : rowsOf c hist.flatten = []
+    · simp [hd] at hs
+    · simp only [hd, if_false, Option.map_some, gProj, Option.some.injEq, Prod.mk.injEq] at hs
+      exact hs.1
+  refine ⟨hcount, ?_⟩
+  rcases List.eq_nil_or_concat hist with rfl | ⟨h', b, rfl⟩
+  · simp [gnbRun, lookup] at h
+  · simp only [List.concat_eq_append] at *
+    have e : gnbRun vs p (h' ++ [b]) = gnbStep vs p (gnbRun vs p h') b := by
+      simp [gnbRun, List.foldl_append]
+    have hp := gnbStep_prior vs p (gnbRun vs p h') b c i (by rw [← e]; exact h)
+    rw [← e, gnb_counts_sum] at hp
+    rw [hp, hcount]
+
+example : (lookup 7 (gnbRun (1 / 2 : Rat) 1 [[([1], 7), ([0], 3)], [([3], 7)]])).map (fun i => (i.count, i.prior)) =
+    some (2, 2 / 3) := by decide +kernel
+
+/-- **Gaussian NB replay through the whole model state, every `var_smoothing`** — the exact law of
+the code that exists.  After any history every class holds the count and per-feature means of its
+rows in the concatenated data, and per-feature variances
+`population variance + Σ_b epsilon_b · n_{c,b} / n_c`: the smoothing term is the mean of the
+per-batch epsilons weighted by the number of rows of the class in each batch (not the epsilon of the
+whole data, which is what the property asks for — see `gnb_var_replay_fails_with_smoothing`). -/
+theorem gnb_replay_any_smoothing (vs : α) (p : Nat) (hist : List (Batch α)) (c : Nat) :
+    (lookup c (gnbRun vs p hist)).map gProj = gnbStatsSm vs p hist c :=
+  gnbRun_stats_sm vs p hist c
+
+example : (lookup 0 (gnbRun (1 / 2 : Rat) 1 smoothingWitness')).map gProj = some (4, [3 / 2], [11 / 4 + (1 / 2 * 2 + 2 * 2) / 4]) := by
+  decide +kernel
+
+/-- **a single fit is the textbook estimate for every `var_smoothing`**: class frequencies'
+numerator, per-class means, per-class variance + `var_smoothing · max_j Var(column j of all rows)` -/
+theorem gnb_single_fit_is_textbook (vs : α) (p : Nat) (d : Batch α) (c : Nat)
+    (hc : rowsOf c d ≠ []) :
+    (lookup c (gnbRun vs p [d])).map gProj = some (gProj (gnbTextbook vs p d c)) := by
+  rw [gnbRun_stats_sm]
+  have hn : ((rowsOf c d).length : α) ≠ 0 := Nat.cast_ne_zero.mpr (by simpa using hc)
+  simp only [gnbStatsSm, List.flatten_cons, List.flatten_nil, List.append_nil, hc, if_false, gProj,
+    gnbTextbook, Option.some.injEq, Prod.mk.injEq, true_and]
+  apply List.map_congr_left
+  intro xs _
+  rw [gnbEffSum_uniform vs p [d] c (gnbEps vs p d) (by simp)]
+  simp only [List.flatten_cons, List.flatten_nil, List.append_nil]
+  field_simp
+
+/-- **incremental = batch = textbook whenever the batches share the epsilon of the whole data**
+(in particular for `var_smoothing = 0`, and for data whose dominating column has the same variance
+in every batch): every class, every history, class-incomplete batches included. -/
+theorem gnb_incremental_eq_batch_of_uniform_eps (vs : α) (p : Nat) (hist : List (Batch α)) (c : Nat)
+    (hc : rowsOf c hist.flatten ≠ [])
+    (he : ∀ b ∈ hist, gnbEps vs p b = gnbEps vs p hist.flatten) :
+    (lookup c (gnbRun vs p hist)).map gProj = some (gProj (gnbTextbook vs p hist.flatten c)) ∧
+    (lookup c (gnbRun vs p hist)).map gProj = (lookup c (gnbRun vs p [hist.flatten])).map gProj := by
+  have hn : ((rowsOf c hist.flatten).length : α) ≠ 0 := Nat.cast_ne_zero.mpr (by simpa using hc)
+  have h1 : (lookup c (gnbRun vs p hist)).map gProj = some (gProj (gnbTextbook vs p hist.flatten c)) := by
+    rw [gnbRun_stats_sm]
+    simp only [gnbStatsSm, hc, if_false, gProj, gnbTextbook, Option.some.injEq, Prod.mk.injEq, true_and]
+    apply List.map_congr_left
+    intro xs _
+    rw [gnbEffSum_uniform vs p hist c _ he]
+    field_simp
+  exact ⟨h1, by rw [h1, gnb_single_fit_is_textbook vs p hist.flatten c hc]⟩
+
+/-- a history with one dominating, balanced column: both batches have epsilon `1/2 · 4`, class 3 is
+absent from the second batch -/
+example : (lookup 3 (gnbRun (1 / 2 : Rat) 2 [[([4, 0], 3), ([0, 1], 3)], [([4, 1], 7), ([0, 1], 7)]])).map gProj =
+    some (gProj (gnbTextbook (1 / 2 : Rat) 2 [([4, 0], 3), ([0, 1], 3), ([4, 1], 7), ([0, 1], 7)] 3)) := by
   decide +kernel
 
 /-- the history used by the counter-example: one class, one feature, batches `[0,2]` then `[0,4]` -/
